@@ -31,24 +31,153 @@ def model_dict(m, limit=60):
     return out
 
 
+# Opt-in first attempt for quantifier-free obligations over uninterpreted real functions (set by a property module,
+# e.g. contracts/C12.py sets PURIFY = "decide"):  every application f(args) of an uninterpreted function is replaced by a
+# fresh constant (same function + same simplified arguments -> same constant), then
+# simplify(som) ; propagate-values ; solve-eqs ; simplify(som) ; qfnra-nlsat.
+# Purification only forgets facts (functional consistency), so `unsat` is sound for the original obligation.
+#   None     : off (default)
+#   "try"    : unsat -> proved; anything else -> normal path
+#   "decide" : unsat -> proved; sat -> short normal attempt, and if that does not prove it: refuted with the purified model
+PURIFY = None
+
+
+def _has_quantifier(fs):
+    seen, stack = set(), list(fs)
+    while stack:
+        e = stack.pop()
+        if e.get_id() in seen:
+            continue
+        seen.add(e.get_id())
+        if z3.is_quantifier(e):
+            return True
+        stack.extend(e.children())
+    return False
+
+
+def purify(fs):
+    """Replace applications of uninterpreted functions (arity > 0) by fresh constants. Returns (formulas, table) where
+    table maps the fresh constant's name to the text of the application it stands for."""
+    table, names, cache = {}, {}, {}
+
+    def go(e):
+        k = e.get_id()
+        if k in cache:
+            return cache[k]
+        if z3.is_app(e) and e.num_args() > 0:
+            ch = [go(c) for c in e.children()]
+            if e.decl().kind() == z3.Z3_OP_UNINTERPRETED:
+                key = (e.decl().name(), tuple(z3.simplify(c).get_id() for c in ch))
+                if key not in table:
+                    c = z3.Const(f"uf!{len(table)}!{e.decl().name()}", e.sort())
+                    table[key] = c
+                    names[str(c)] = str(e)[:200]
+                r = table[key]
+            else:
+                r = e.decl()(*ch)
+        else:
+            r = e
+        cache[k] = r
+        return r
+
+    return [go(f) for f in fs], names
+
+
+def discharge_purified(ob, timeout_s=10):
+    """See PURIFY. Returns a result dict, or None when inconclusive / not applicable."""
+    fs = list(ob.hyps) + [z3.Not(ob.goal)]
+    if _has_quantifier(fs):
+        return None
+    t0 = time.time()
+    try:
+        pf, names = purify(fs)
+        g = z3.Goal()
+        for f in pf:
+            g.add(f)
+        tac = z3.TryFor(z3.Then(z3.With("simplify", som=True), "propagate-values", "solve-eqs",
+                                z3.With("simplify", som=True), "qfnra-nlsat"), int(timeout_s * 1000))
+        s = tac.solver()
+        s.add(g.as_expr())
+        r = s.check()
+    except z3.Z3Exception:
+        return None
+    dt = time.time() - t0
+    if r == z3.unsat:
+        return dict(status="proved", backend="z3-purified-nlsat", time_s=dt)
+    if r == z3.sat:
+        m = s.model()
+        md = model_dict(m, limit=400)
+        md = {names.get(k, k): v for k, v in md.items()}
+        return dict(status="refuted", backend="z3-purified-nlsat", time_s=dt, model=md, z3model=m, purified_names=names)
+    return None
+
+
+def _mentions_strings(ob, limit=600):
+    """Does a bounded sample of the goal / most recent hypotheses contain a term of sort String?"""
+    try:
+        stack, seen, n = [ob.goal] + list(ob.hyps)[-30:], set(), 0
+        while stack and n < limit:
+            e = stack.pop()
+            i = e.get_id()
+            if i in seen:
+                continue
+            seen.add(i)
+            n += 1
+            if z3.is_string(e):
+                return True
+            stack.extend([e.body()] if z3.is_quantifier(e) else e.children())
+    except Exception:
+        pass
+    return False
+
+
 def discharge(ob, timeout_s=10, use_cvc5=True, tactics=True):
     """Returns dict(status='proved'|'refuted'|'unknown', backend, time_s, model?)."""
     t0 = time.time()
-    s = z3.Solver()
-    s.set("timeout", int(timeout_s * 1000))
-    for h in ob.hyps:
-        s.add(h)
-    s.add(z3.Not(ob.goal))
-    r = s.check()
-    dt = time.time() - t0
-    if r == z3.unsat:
-        return dict(status="proved", backend="z3", time_s=dt)
-    if r == z3.sat:
-        m = s.model()
-        return dict(status="refuted", backend="z3", time_s=dt, model=model_dict(m), z3model=m)
-    reason = s.reason_unknown()
-    # second attempt: nonlinear tactic pipeline
-    if tactics:
+    if z3.is_true(ob.goal) or z3.is_true(z3.simplify(ob.goal)):
+        # the goal is literally `true` (meta-level clause decided by path enumeration): valid under any hypotheses
+        return dict(status="proved", backend="simplify", time_s=time.time() - t0)
+    if PURIFY:
+        rp = discharge_purified(ob, min(timeout_s, 20))
+        if rp is not None and rp["status"] == "proved":
+            return rp
+        if rp is not None and PURIFY == "decide":
+            s = z3.Solver()
+            s.set("timeout", 1500)
+            for h in ob.hyps:
+                s.add(h)
+            s.add(z3.Not(ob.goal))
+            r = s.check()
+            if r == z3.unsat:
+                return dict(status="proved", backend="z3", time_s=time.time() - t0)
+            rp["time_s"] = time.time() - t0
+            return rp
+    quantified = _has_quantifier(list(ob.hyps) + [ob.goal])
+    # quantified obligations: short z3 attempt, then cvc5 (often instant where z3's instantiation wanders), then z3 in full
+    # (same schedule for obligations over strings, C19: z3's sequence solver often times out where cvc5 answers at once)
+    budgets = [min(3.0, timeout_s), timeout_s] if ((quantified or _mentions_strings(ob)) and use_cvc5 and timeout_s > 3) else [timeout_s]
+    reason = None
+    for bi, budget in enumerate(budgets):
+        s = z3.Solver()
+        s.set("timeout", int(budget * 1000))
+        for h in ob.hyps:
+            s.add(h)
+        s.add(z3.Not(ob.goal))
+        r = s.check()
+        dt = time.time() - t0
+        if r == z3.unsat:
+            return dict(status="proved", backend="z3", time_s=dt)
+        if r == z3.sat:
+            m = s.model()
+            return dict(status="refuted", backend="z3", time_s=dt, model=model_dict(m), z3model=m)
+        reason = s.reason_unknown()
+        if bi == 0 and len(budgets) > 1:
+            rc = _cvc5(ob, timeout_s, t0)
+            if rc is not None:
+                return rc
+            use_cvc5 = False
+    # second attempt: nonlinear tactic pipeline (quantifier-free only)
+    if tactics and not quantified:
         try:
             t1 = time.time()
             g = z3.Goal()
@@ -66,27 +195,34 @@ def discharge(ob, timeout_s=10, use_cvc5=True, tactics=True):
                 return dict(status="refuted", backend="z3-nlsat", time_s=time.time() - t0, model=model_dict(m), z3model=m)
         except z3.Z3Exception:
             pass
-    if use_cvc5 and os.path.exists(CVC5):
-        txt = to_smt2(ob.hyps, ob.goal)
-        logic = ""
-        with tempfile.NamedTemporaryFile("w", suffix=".smt2", delete=False) as f:
-            f.write(txt)
-            path = f.name
-        try:
-            t1 = time.time()
-            p = subprocess.run([CVC5, "--strings-exp", f"--tlimit={int(timeout_s * 1000)}", path],
-                               capture_output=True, text=True, timeout=timeout_s + 5)
-            out = (p.stdout or "").strip().splitlines()
-            ans = out[0] if out else ""
-            if ans == "unsat":
-                return dict(status="proved", backend="cvc5", time_s=time.time() - t0)
-            if ans == "sat":
-                return dict(status="refuted", backend="cvc5", time_s=time.time() - t0, model={"note": "cvc5 sat (no model extracted)"})
-        except subprocess.TimeoutExpired:
-            pass
-        finally:
-            os.unlink(path)
+    if use_cvc5:
+        rc = _cvc5(ob, timeout_s, t0)
+        if rc is not None:
+            return rc
     return dict(status="unknown", backend="z3+cvc5", time_s=time.time() - t0, reason=str(reason))
+
+
+def _cvc5(ob, timeout_s, t0):
+    if not os.path.exists(CVC5):
+        return None
+    txt = to_smt2(ob.hyps, ob.goal)
+    with tempfile.NamedTemporaryFile("w", suffix=".smt2", delete=False) as f:
+        f.write(txt)
+        path = f.name
+    try:
+        p = subprocess.run([CVC5, "--strings-exp", f"--tlimit={int(timeout_s * 1000)}", path],
+                           capture_output=True, text=True, timeout=timeout_s + 5)
+        out = (p.stdout or "").strip().splitlines()
+        ans = out[0] if out else ""
+        if ans == "unsat":
+            return dict(status="proved", backend="cvc5", time_s=time.time() - t0)
+        if ans == "sat":
+            return dict(status="refuted", backend="cvc5", time_s=time.time() - t0, model={"note": "cvc5 sat (no model extracted)"})
+    except subprocess.TimeoutExpired:
+        pass
+    finally:
+        os.unlink(path)
+    return None
 
 
 def smt_hash(ob):
